@@ -17,13 +17,24 @@ var cronParser = cron.NewParser(
 	cron.Minute | cron.Hour | cron.Dom | cron.Month | cron.Dow,
 )
 
+// parseCron parses a cron expression; robfig/cron panics on a "TZ=" prefix
+// that is not followed by a space, which is reported as an error here.
+func parseCron(v string) (s cron.Schedule, err error) {
+	defer func() {
+		if r := recover(); r != nil {
+			err = fmt.Errorf("invalid time zone prefix: %v", r)
+		}
+	}()
+	return cronParser.Parse(v)
+}
+
 // parseSchedules parses the schedule values and returns a list of schedules.
 // each schedule is parsed as a cron expression.
 func parseSchedules(values []string) ([]Schedule, error) {
 	var ret []Schedule
 
 	for _, v := range values {
-		parsed, err := cronParser.Parse(v)
+		parsed, err := parseCron(v)
 		if err != nil {
 			return nil, fmt.Errorf("%w: %s", errInvalidSchedule, err)
 		}
@@ -98,7 +109,7 @@ func parseScheduleMap(
 		}
 
 		for _, v := range values {
-			if _, err := cronParser.Parse(v); err != nil {
+			if _, err := parseCron(v); err != nil {
 				return fmt.Errorf("%w: %s", errInvalidSchedule, err)
 			}
 			*targets = append(*targets, v)
